@@ -94,6 +94,37 @@ theorem parseSymindex_lengths (bs : List Byte) (ix : Index) (h : parseSymindex b
        rw [decList_length _ _ _ _ ha, decList_length _ _ _ _ he])
     | skip
 
+/-- whatever `make_index_storage` decides (stored index used, ignored as foreign, rejected, none offered): the
+index the map works with came out of `parse_symindex_file`, so its two symbol arrays are equally long -/
+theorem mapSelf_ok_lengths (pick : Pick) (text : List Byte) (ix : Index) (h : mapSelf pick text = .ok ix) :
+    ix.addrs.length = ix.entries.length := by
+  unfold mapSelf at h
+  split at h
+  · cases h
+  · split at h
+    · cases h
+    · cases h
+    · split at h
+      · cases h
+      · rename_i hp
+        cases h
+        exact parseSymindex_lengths _ _ hp
+
+theorem mapStored_ok_lengths (pick : Pick) (text : List Byte) (stored : Option (List Byte)) (ix : Index)
+    (h : mapStored pick text stored = .ok ix) : ix.addrs.length = ix.entries.length := by
+  unfold mapStored at h
+  split at h
+  · cases h
+  · split at h
+    · rename_i ix' hst
+      split at h
+      · cases h
+        cases stored with
+        | none => simp at hst
+        | some b => exact parseSymindex_lengths b _ (by simpa using hst)
+      · exact mapSelf_ok_lengths pick text ix h
+    · exact mapSelf_ok_lengths pick text ix h
+
 /-! ### lookups -/
 
 /-- a lookup result names the symbol it was asked to resolve and never carries an empty frame list -/
